@@ -59,7 +59,10 @@ class TRec(T):
     def ftype(self, f): return dict(self.fields)[f]
     def get(self, sym, f):
         i = [n for n, _ in self.fields].index(f)
-        return Sym(self.fields[i][1], self._s.accessor(0, i)(sym.term))
+        t = sym.term
+        if is_app(t) and t.num_args() == len(self.fields) and t.decl().eq(self._s.constructor(0)):
+            return Sym(self.fields[i][1], t.arg(i))          # field of a constructor application: the argument itself (keeps if-terms of other fields out of patterns)
+        return Sym(self.fields[i][1], self._s.accessor(0, i)(t))
     def make(self, **vals):
         return Sym(self, self._s.constructor(0)(*[vals[f].term for f, _ in self.fields]))
     def update(self, sym, f, v):
